@@ -1000,6 +1000,61 @@ pub fn gen_proc(_tier: Tier) -> Gen {
     Gen { name: "proc", len, model: Arc::new(model) }
 }
 
+/// first byte of the address window the overlapping unloaded modules of `gen_unloaded_overlap` live in
+pub const UNL_BASE: u64 = 0x5000_0000;
+
+/// C14 overlapping / nested unloaded modules: every ordered list of 3 unloaded modules and every
+/// ordered list of 4 unloaded modules whose (base, size) come from a grid (so that ranges nest,
+/// overlap partially, coincide, touch and lie apart in every stream order), under name patterns
+/// with one name at two or more ranges, without and with a loaded module inside the window. Every
+/// dump has one thread per probe address: for every unloaded (and the loaded) module the bytes
+/// just below its base, its base, its middle, its last byte and the byte just past its end.
+pub fn gen_unloaded_overlap(tier: Tier) -> Gen {
+    let grid = |bases: &[u64], sizes: &[u32]| -> Vec<(u64, u32)> { bases.iter().flat_map(|&b| sizes.iter().map(move |&s| (b, s))).collect() };
+    let opts3 = if tier == Tier::Thorough { grid(&[0, 0x1000, 0x2000, 0x3000], &[0x800, 0x1000, 0x2000, 0x4000]) } else { grid(&[0, 0x1000, 0x2000], &[0x800, 0x1000, 0x4000]) };
+    let opts4 = if tier == Tier::Thorough { grid(&[0, 0x1000, 0x2000], &[0x800, 0x1000, 0x4000]) } else { grid(&[0, 0x1000, 0x2000], &[0x800, 0x4000]) };
+    const NAMES3: [[usize; 3]; 3] = [[0, 1, 2], [0, 1, 0], [0, 0, 0]];
+    const NAMES4: [[usize; 4]; 3] = [[0, 1, 2, 3], [0, 1, 0, 1], [0, 0, 1, 0]];
+    let (n3, n4) = (opts3.len() as u64, opts4.len() as u64);
+    let rad3 = vec![n3, n3, n3, 3, 2];
+    let rad4 = vec![n4, n4, n4, n4, 3];
+    let len3 = crate::core::product(&rad3);
+    let len = len3 + crate::core::product(&rad4);
+    let model = move |idx: u64| {
+        use md::PlatformId as P;
+        let (mods, live): (Vec<((u64, u32), usize)>, bool) = if idx < len3 {
+            let d = crate::core::unrank(idx, &rad3);
+            ((0..3).map(|j| (opts3[d[j] as usize], NAMES3[d[3] as usize][j])).collect(), d[4] == 1)
+        } else {
+            let d = crate::core::unrank(idx - len3, &rad4);
+            ((0..4).map(|j| (opts4[d[j] as usize], NAMES4[d[4] as usize][j])).collect(), (d[0] + d[1] + d[2] + d[3]) % 2 == 1)
+        };
+        let cpu = [CpuK::Amd64, CpuK::X86, CpuK::Arm64][(idx % 3) as usize];
+        let pid = [P::VER_PLATFORM_WIN32_NT as u32, P::Linux as u32][((idx / 3) % 2) as usize];
+        let mut m = Model::new(cpu, pid);
+        m.unloaded = mods.iter().map(|&((b, s), n)| ModM { base: UNL_BASE + b, size: s, name: format!("gone{n}.dll") }).collect();
+        m.modules.push(app_module());
+        if live {
+            // frames inside a loaded module carry no unloaded-module attribution
+            m.modules.push(ModM { base: UNL_BASE + 0x2000, size: 0x800, name: "live.dll".into() });
+        }
+        let mut probes: Vec<u64> = vec![];
+        for r in m.unloaded.iter().chain(m.modules.iter().skip(1)) {
+            let end = r.base + r.size as u64;
+            probes.extend([r.base - 1, r.base, r.base + r.size as u64 / 2, end - 1, end]);
+        }
+        probes.sort_unstable();
+        probes.dedup();
+        let tids: Vec<u32> = (1..=probes.len() as u32).collect();
+        add_threads(&mut m, &tids, 0);
+        for (t, p) in m.threads.iter_mut().zip(&probes) {
+            t.ip = *p;
+        }
+        m
+    };
+    Gen { name: "unloaded-overlap", len, model: Arc::new(model) }
+}
+
 // ---------------------------------------------------------------------------------------------
 // C19 bit-flip space
 
@@ -1126,6 +1181,74 @@ pub fn gen_bitflip(tier: Tier) -> Gen {
         m
     };
     Gen { name: "bitflip", len, model: Arc::new(model) }
+}
+
+/// Non-canonical amd64 values examined by `gen_bitflip_neighbours` (as rsp of `mov al,[rsp]`): one
+/// bit (48, 47, 63, 56) away from a low user address, the lowest non-canonical value and 2^48 and
+/// 2^63 (one bit away from null), a value of the highest non-canonical page (bit 47 away from the
+/// topmost page), and one that is more than one bit away from every canonical address.
+pub const NONCANON_MENU: [u64; 9] = [
+    0x0001_0000_0001_0010,
+    0x0000_8000_0001_0010,
+    0x0000_8000_0000_0000,
+    0xffff_7fff_ffff_fff0,
+    0x8000_0000_0000_0000,
+    0x0001_0000_0000_0000,
+    0x8000_0000_0001_0010,
+    0x0100_0000_0001_0010,
+    0x0003_0000_0001_0010,
+];
+fn page_region(n: u64, linux: bool) -> (u64, u64) {
+    let base = n & !0xfff;
+    // as in `region_at`: a MemoryInfo entry cannot end at 2^64-1
+    (base, if base == TOP && !linux { u64::MAX - 1 } else { base + 0xfff })
+}
+
+/// C19, maps placed relative to the examined value: for every non-canonical value v of
+/// `NONCANON_MENU` (quick: the first 6) and every bit b of 40..64 (thorough: 0..64), the map is
+/// {the page of v ^ 2^b}, {the page next to it} (neighbour unmapped) or {the page of v, the page of
+/// v ^ 2^b} (examined value itself mapped), under 7 permission rotations, as MemoryInfoList and as
+/// LinuxMaps, for the three general-protection-fault renderings (Windows AV read at 2^64-1, Linux
+/// SIGSEGV/SI_KERNEL at 0, Mac EXC_I386_GPFLT at 0) and one page-fault rendering (Linux MAPERR at
+/// 0), on amd64 with `mov al,[rsp]`, rsp = v, at the crash site.
+pub fn gen_bitflip_neighbours(tier: Tier) -> Gen {
+    let vals: Vec<u64> = NONCANON_MENU[..tier.pick(6, NONCANON_MENU.len())].to_vec();
+    let bits: Vec<u32> = if tier == Tier::Thorough { (0..64).collect() } else { (40..64).collect() };
+    let radices = vec![4u64, 2, 7, 3, bits.len() as u64, vals.len() as u64];
+    let len = crate::core::product(&radices);
+    let model = move |idx: u64| {
+        let d = crate::core::unrank(idx, &radices);
+        let (kind, linux, rot, variant, bit, v) = ([0u64, 5, 7, 4][d[0] as usize], d[1] == 1, d[2], d[3], bits[d[4] as usize], vals[d[5] as usize]);
+        let n = v ^ (1u64 << bit);
+        let (pid, rec, exc_addr) = bitflip_exc(kind, if kind == 0 { u64::MAX } else { 0 });
+        let mut m = Model::new(CpuK::Amd64, pid);
+        add_threads(&mut m, &[1], 0);
+        m.threads[0].ip = 0x4000_2000;
+        m.modules.push(app_module());
+        let pn = page_region(n, linux);
+        let mut regs: Vec<(u64, u64)> = match variant {
+            0 => vec![pn],
+            1 => vec![page_region(if pn.0 == TOP { pn.0 - 0x1000 } else { pn.0 + 0x1000 }, linux)],
+            _ => vec![page_region(v, linux), pn],
+        };
+        regs.sort_unstable();
+        regs.dedup();
+        let perm = |j: usize| ((rot + 3 * j as u64) % 7) as usize;
+        m.maps = if linux {
+            MapsM::Linux(regs.iter().enumerate().map(|(j, r)| (r.0, r.1, LINUX_PERMS[perm(j)])).collect())
+        } else {
+            MapsM::Info(regs.iter().enumerate().map(|(j, r)| (r.0, r.1 - r.0 + 1, INFO_PERMS[perm(j)])).collect())
+        };
+        let mut x = exc_of(rec, 1, exc_addr, 1);
+        x.ctx_ip = 0x4000_2000;
+        x.ctx_sp = v;
+        let mut b = vec![0x8a, 0x04, 0x24];
+        b.resize(16, 0x90);
+        m.code = Some((0x4000_2000, b));
+        m.exc = Some(x);
+        m
+    };
+    Gen { name: "bitflip-neighbours", len, model: Arc::new(model) }
 }
 
 // ---------------------------------------------------------------------------------------------
